@@ -71,6 +71,8 @@ type lifeConnRec struct {
 	serverClosed bool
 	hijackOK   bool
 	foreign    int
+	hijackCalled int32 // handlers on this connection that called ctx.Hijack
+	hijackRan    int32 // hijack handlers that were started for it
 }
 
 type lifeRun struct {
@@ -246,7 +248,13 @@ func (r *lifeRun) handler(ctx *fasthttp.RequestCtx, inv *Inv) {
 		}
 	}
 	if strings.HasPrefix(inv.URI, "/hijack") {
+		if rec != nil {
+			atomic.AddInt32(&rec.hijackCalled, 1)
+		}
 		ctx.Hijack(func(c net.Conn) {
+			if rec != nil {
+				atomic.AddInt32(&rec.hijackRan, 1)
+			}
 			atomic.AddInt32(&r.hijackCur, 1)
 			defer atomic.AddInt32(&r.hijackCur, -1)
 			br := bufio.NewReader(c)
@@ -487,6 +495,9 @@ func (r *lifeRun) judgeStates() {
 	}
 	for _, o := range r.orphan {
 		e.Violation("identity", "%s", o)
+		return
+	}
+	if !r.judgeTerminal() {
 		return
 	}
 	for i := range r.p.Conns {
@@ -731,6 +742,34 @@ func (rec *lifeConnRec) goneAt() time.Duration {
 	return rec.lastHandEnd
 }
 
+// judgeTerminal: the terminal report matches what happened to the connection:
+// StateHijacked only for a connection whose handler hijacked it, StateClosed
+// for the others, and a connection that was not hijacked is closed by the server.
+func (r *lifeRun) judgeTerminal() bool {
+	e := r.e
+	for i := range r.p.Conns {
+		rec := r.recs[r.addrOf(i)]
+		if rec.client == nil || len(rec.states) == 0 {
+			continue
+		}
+		last := rec.states[len(rec.states)-1].State
+		e.Ob(1)
+		if last == fasthttp.StateHijacked && atomic.LoadInt32(&rec.hijackCalled) == 0 {
+			e.Violation("terminal/hijacked-not-hijacked", "conn %d (%s): reported StateHijacked although no handler on it called Hijack", i, rec.addr)
+			return false
+		}
+		if last == fasthttp.StateClosed && atomic.LoadInt32(&rec.hijackRan) > 0 {
+			e.Violation("terminal/closed-but-hijacked", "conn %d (%s): its hijack handler ran, yet the connection was reported StateClosed", i, rec.addr)
+			return false
+		}
+		if atomic.LoadInt32(&rec.hijackCalled) == 0 && (last == fasthttp.StateClosed || last == fasthttp.StateHijacked) && !rec.client.Peer().Closed() {
+			e.Violation("terminal/not-closed", "conn %d (%s): reported %v and never hijacked, yet its server side was never closed", i, rec.addr, last)
+			return false
+		}
+	}
+	return true
+}
+
 // ---------------- C13 ----------------
 
 func (r *lifeRun) judgeWorkers() {
@@ -742,6 +781,9 @@ func (r *lifeRun) judgeWorkers() {
 	}
 	for _, o := range r.orphan {
 		e.Violation("identity", "%s", o)
+		return
+	}
+	if !r.judgeTerminal() {
 		return
 	}
 	for i := range p.Conns {
@@ -763,7 +805,7 @@ func (r *lifeRun) judgeWorkers() {
 			e.Violation("served-once", "conn %d: accepted once but reported closed/hijacked %d times", i, term)
 			return
 		}
-		if news == 1 && rec.rejected == 0 && !rec.client.Peer().Closed() && !p.KeepHijacked {
+		if news == 1 && rec.rejected == 0 && !rec.client.Peer().Closed() && !(p.KeepHijacked && atomic.LoadInt32(&rec.hijackCalled) > 0) {
 			e.Violation("lost", "conn %d: accepted but its server side was never closed", i)
 			return
 		}
